@@ -186,3 +186,9 @@ func RangeMapKeys[M ~map[K]V, K comparable, V any](site string, m M) iter.Seq[K]
 		}
 	}
 }
+
+// Flip is the simulator's choice of polling priority for a two-case select (see the rewriter):
+// fixed per (Seed, site), so one seed is one repeatable schedule and different seeds differ.
+func Flip(site string) bool {
+	return h64(fmt.Sprintf("%d", Seed), "select", site)&1 == 0
+}
